@@ -128,7 +128,8 @@ def run_case(case):
                 pt[k] = Fr(int(v))
         for k, n in dd:
             pt[k] = Fr(r.randint(0, n - 1))
-        kind = r.choice(["node", "cell", "outside"]) if exact else r.choice(["node", "cell"])
+        # "outside" moves the *linear* axes out of their range; log axes stay inside theirs (C14's quantifier)
+        kind = r.choice(["node", "cell", "outside"]) if (exact or any(c[1] == "lin" for c in cs)) else r.choice(["node", "cell"])
         for k, gk, a, b, n in cs:
             if gk == "lin":
                 if kind == "node":
